@@ -22,6 +22,10 @@ def in_region(name, line, impl, model):
     if name.startswith("panic-site:"):
         # a known finding identified by its call site: the surface sweep reports `panic@<crate>/src/<file>:<line>`
         return impl == "panic@" + name[len("panic-site:"):]
+    if name.startswith("sweep-timeout:"):
+        # a call that did not return within the watchdog limit, identified by the calendar it was made in
+        t = line.split(" ")
+        return impl.startswith("timeout") and t[0] in ("sw_cal", "sw_calp") and t[1] == name[len("sweep-timeout:"):]
     f = REGIONS.get(name)
     if f is None:
         return False
